@@ -271,6 +271,12 @@ func genLinReg(r *gen.R, validOnly bool) (mon.OpReq, Expect, bool) {
 		x = numTensor(r, dt, []int{n, c + 1})
 		req.Inputs[0] = x
 	}
+	if !validOnly && t >= 2 && r.Chance(0.06) { // a coefficient count that is not a multiple of targets
+		extra := r.Range(1, t-1)
+		c32b, cb := f32s(r, extra)
+		coef32, coef = append(coef32, c32b...), append(coef, cb...)
+		req.Attrs[0] = mon.AttrFloats("coefficients", coef32)
+	}
 	if r.Bool() { // attribute order must not matter
 		for i, j := 0, len(req.Attrs)-1; i < j; i, j = i+1, j-1 {
 			req.Attrs[i], req.Attrs[j] = req.Attrs[j], req.Attrs[i]
